@@ -262,3 +262,116 @@ def ctor_fields(cx, call):
                 out[names[i]] = a
     out.update({k: v for k, v in kwargs_of(call).items() if k != '**'})
     return out
+
+
+# -------------------------------------------------------------------- conditional expressions as paths
+def subst_term(t, old, new):
+    if t == old:
+        return new
+    if isinstance(t, tuple):
+        return tuple(subst_term(x, old, new) for x in t)
+    return t
+
+
+def _cond_cases(ct, truth):
+    """atomic decompositions of `ct is truth`: list of lists of (atomic term, truth)"""
+    if ct[0] == 'not':
+        return _cond_cases(ct[1], not truth)
+    if ct[0] in ('and', 'or'):
+        conj = (ct[0] == 'and') == truth           # and-true / or-false: all parts decided the same way
+        if conj:
+            res = [[]]
+            for p in ct[1]:
+                res = [r + c for r in res for c in _cond_cases(p, truth)]
+            return res
+        res = []
+        prefix = [[]]
+        for p in ct[1]:
+            for pre in prefix:
+                for c in _cond_cases(p, truth):
+                    res.append(pre + c)
+            prefix = [pre + c for pre in prefix for c in _cond_cases(p, not truth)]
+        return res
+    return [[(ct, truth)]]
+
+
+def _first_ite(l):
+    terms = [l.value] + [x for e in l.effects for x in (e[1], e[2]) if isinstance(x, tuple)]
+    for t in terms:
+        if t is None:
+            continue
+        for x in walk(t):
+            if x[0] == 'ite':
+                return x
+    return None
+
+
+def split_ites(leaves, limit=24):
+    """leaves in which no value / effect term contains a conditional expression: each `a if c else b` becomes two paths with c
+    (split into its atomic parts) among the path conditions.  Paths contradicting a pure condition already taken are dropped."""
+    from .symex import _pure
+    out = []
+    work = list(leaves)
+    while work:
+        l = work.pop(0)
+        ite = _first_ite(l)
+        if ite is None or len(out) + len(work) > limit:
+            out.append(l)
+            continue
+        for truth, repl in ((True, ite[2]), (False, ite[3])):
+            for case in _cond_cases(ite[1], truth):
+                n = l.clone()
+                ok = True
+                for ct, tr in case:
+                    prev = [t0 for c0, t0, _ in n.conds if c0 == ct]
+                    if prev and _pure(ct):
+                        if prev[0] != tr:
+                            ok = False
+                            break
+                        continue
+                    n.conds.append((ct, tr, l.node))
+                if not ok:
+                    continue
+                n.value = subst_term(n.value, ite, repl) if n.value is not None else None
+                n.conds = [(subst_term(c0, ite, repl), t0, n0) for c0, t0, n0 in n.conds]
+                n.effects = [(e[0], subst_term(e[1], ite, repl) if isinstance(e[1], tuple) else e[1], subst_term(e[2], ite, repl) if isinstance(e[2], tuple) else e[2]) + tuple(e[3:]) for e in n.effects]
+                work.append(n)
+    return out
+
+
+def path_cond(leaf, upto=None):
+    """the path condition of a leaf as one boolean term"""
+    cs = leaf.conds if upto is None else leaf.conds[:upto]
+    parts = tuple(ct if tr else ('not', ct) for ct, tr, _ in cs)
+    if not parts:
+        return ('c', True)
+    return ('and', parts) if len(parts) > 1 else parts[0]
+
+
+# -------------------------------------------------------------------- definitions of derived fields
+def self_field_exprs(cx, mod, clsname):
+    """field -> the one term it is defined as in __init__ / __post_init__ (plain store or object.__setattr__(self, "f", v)),
+    for fields with exactly one unconditional definition that is not a bare parameter"""
+    key = ('fexpr', mod, clsname)
+    if key in cx._fields:
+        return cx._fields[key]
+    c = cx.cls(mod, clsname)
+    cand = {}
+    for mname in ('__init__', '__post_init__'):
+        r = cx.model.find_method(mod, c, mname)
+        if r is None or r[1] is not c:
+            continue
+        lv = cx.leaves_of(*r)
+        ok_leaves = [l for l in lv if l.outcome != 'raise']
+        for l in ok_leaves:
+            for e in l.effects:
+                f = v = None
+                if e[0] == 'store' and e[1][0] == 'attr' and e[1][1] == ('self',):
+                    f, v = e[1][2], e[2]
+                elif e[0] == 'call' and e[1][0] == 'call' and e[1][1] == ('attr', ('b', 'object'), '__setattr__') and len(e[1][2]) == 3 and e[1][2][0] == ('self',) and e[1][2][1][0] == 'c':
+                    f, v = e[1][2][1][1], e[1][2][2]
+                if f is not None:
+                    cand.setdefault(f, set()).add(v)
+    out = {f: next(iter(vs)) for f, vs in cand.items() if len(vs) == 1 and next(iter(vs))[0] not in ('p', 'c')}
+    cx._fields[key] = out
+    return out
